@@ -389,6 +389,11 @@ dead_word(uint64_t seed, size_t idx)
 uint64_t
 vcall(void *fn, int nargs, const uint64_t *args, obs *o)
 {
+        {
+                const char *nm = sym_name(fn);
+                if (nm)
+                        note_called(nm);
+        }
         struct vcall_in in;
         static __thread uint8_t *zg;
         static __thread uint64_t callno;
@@ -576,11 +581,28 @@ ev_open(const char *path)
                 die("cannot open %s", path);
         setvbuf(ev_fp, NULL, _IOFBF, 1 << 20);
 }
+/* names of the library entry points the drivers resolved (= called through the trampoline) */
+static const char *called[2048];
+static int ncalled;
+void
+note_called(const char *name)
+{
+        for (int i = 0; i < ncalled; i++)
+                if (called[i] == name)
+                        return;
+        if (ncalled < 2048)
+                called[ncalled++] = name;
+}
 void
 ev_close(void)
 {
-        if (ev_fp)
+        if (ev_fp) {
+                fprintf(ev_fp, "{\"e\":\"Mark\",\"id\":\"called\",\"syms\":[");
+                for (int i = 0; i < ncalled; i++)
+                        fprintf(ev_fp, "%s\"%s\"", i ? "," : "", called[i]);
+                fprintf(ev_fp, "]}\n");
                 fclose(ev_fp);
+        }
         ev_fp = NULL;
 }
 static void
